@@ -1,20 +1,88 @@
 from common import Rng
 
 CONFIG = dict(
-    claimed=False, na_reason="proofs in progress (model, spec, correspondence and oracle already run)",
-    level_text="",
-    level_note="",
-    lean_modules=["Rbgp.Export.Spec01"],
-    theorems=[],
+    claimed=True,
+    level_text="Kernel-checked Lean theorems about an executable model of the whole path RIB (per-shard destination ids from a "
+               "lowest-free allocator) -> change queue -> process_nlri_change / do_route_refresh -> ExportMap -> PendingTx -> "
+               "drain -> abstract codec -> neighbour mirror: pending_last_writer_wins and the survival of a queued withdrawal "
+               "across destination-id re-use; destid_stable for Table::insert / Table::remove; export_invariant (every "
+               "delivered change, flush, policy change and in-order soft reset keeps the session invariant), convergence (the "
+               "flushed neighbour view is exactly the export of the last delivered paths under the current policy = what a "
+               "brand-new session is sent) and withdraw_on_wire for sessions without add-path; and the master theorem: the C01 "
+               "reference checker (view after quiescence and flush = fresh dump, as sets of prefix / path-id / attributes / next "
+               "hop) accepts every run of the composed model whose hypotheses, computed along the run, hold.  The full-strength "
+               "statement C01_full is kept as a definition and refuted for the current code by a kernel-evaluated witness "
+               "(finding S36).  The model is tied to the code by running the REAL TableManager (1-3 shards) -> on_established "
+               "-> handle_prefix_update / do_route_refresh -> PendingTx::drain_messages -> PeerCodec::encode_to on generated "
+               "histories, decoding the real bytes with an independent UPDATE reader into a mirror, establishing a second "
+               "brand-new session for the fresh dump, and diffing every flush against the model, with the reference checker as "
+               "oracle on the real observations.",
+    level_note="Trusted: Lean kernel; axioms propext/Quot.sound; the hand-written model (checked only by the correspondence "
+               "stream); harness glue (ToPeerEvent dispatch and the drain+encode loop transcribed from run_select / flush_tx, "
+               "the tokio channel replaced by a FIFO, the independent UPDATE reader).  The master theorem's hypothesis okRun is "
+               "computed, not assumed: session without add-path, no LLGR stale period, every delivered change admissible for "
+               "the session's view (ids stable and unshared, best_changed = false only when the best path is unchanged - what "
+               "C06 states about the change stream), soft resets walking a snapshot of the view's destinations, no policy "
+               "change left without its soft reset, final RIB snapshot consistent with the view; the driver reports any "
+               "generated in-order history on which it fails (none in 30 000).  NOT covered by theorems, only by the "
+               "correspondence stream and the oracle: the add-path branch (effective_max > 1), Table::drop / peer-down id "
+               "bookkeeping, histories in which a soft reset overtakes queued changes (open finding S36), LLGR stale periods "
+               "(open finding S16, outside the property's quantifier), next-hop flaps (not generated).",
+    lean_modules=["Rbgp.Export.Props01"],
+    theorems=[
+        "Rbgp.Export.Props01.check_run_ok",
+        "Rbgp.Export.Props01.C01_full_fails",
+        "Rbgp.Export.Props01.pending_last_writer_wins",
+        "Rbgp.Export.Props01.drain_withdrawals_first",
+        "Rbgp.Export.Props01.withdrawal_survives_id_reuse",
+        "Rbgp.Export.Props01.destid_stable_init",
+        "Rbgp.Export.Props01.destid_stable_insert",
+        "Rbgp.Export.Props01.destid_stable_remove",
+        "Rbgp.Export.Props01.export_invariant_establish",
+        "Rbgp.Export.Props01.export_invariant_deliver",
+        "Rbgp.Export.Props01.export_invariant_flush",
+        "Rbgp.Export.Props01.export_invariant_soft_reset",
+        "Rbgp.Export.Props01.export_invariant_meaning",
+        "Rbgp.Export.Props01.convergence",
+        "Rbgp.Export.Props01.convergence_vs_fresh_dump",
+        "Rbgp.Export.Props01.withdraw_on_wire",
+    ],
     harness=dict(kind="daemon", test="event::verif_event::c01::verif_main"),
     profiles=["debug"],
     n_quick=2000, n_thorough=200000, shards=12,
     nontrivial_re=r"\(final \(",
-    rule="",
-    expect_tokens=[],
-    trusted_base=[],
-    modelled_not_verified=[],
-    assumptions=[],
+    rule="histories of 5-60 operations over 2-5 prefixes (10.1.x.0/24, 10.2.0.0/16, 172.16.0.0/16, chosen to share a shard two "
+         "times out of three), 2-4 sources (eBGP, iBGP, RR-client, RS-client, confed, local; one in four cases a source with "
+         "the neighbour's own address), 3-5 attribute sets differing in LOCAL_PREF / ORIGIN / MED / communities / opaque "
+         "attributes, neighbour role in {eBGP, iBGP, RR client, RS client, confed}, cluster-id, confederation id, send-max "
+         "1-3, 1-3 shards, 1-3 export policies (reject ORIGIN v, set MED, add community, next-hop address, reject all); "
+         "operations: announce / withdraw (remote path ids 0-2), peer-down, soft reset with a new policy, deliver k queued "
+         "events, flush; biased sequences: withdraw the last path of a prefix and announce a prefix the RIB does not hold "
+         "before the flush (destination-id re-use, optionally with a delivery or a soft reset in between), 2-3 sources on one "
+         "prefix (add-path window crossings, best-path changes, filtered head); 0-4 announcements before establishment (the "
+         "dump); 1.7 % syntactically damaged cases.  At the end everything is delivered and flushed and a brand-new "
+         "session is established on the same RIB.  Non-trivial = the final view is not empty; distinct = distinct case line",
+    expect_tokens=["(reuse 1)", "(reuse 2)", "(overtaken 0)", "(overtaken 1)", "(final)", "(final (", "(dump (", "(flushes (m (",
+                   "(bad-case)", "(words 8 77)", "(val 4 7)", "(v4 3232235999)", "(val 9 ", "(aspath (3 65001)", " 24 2 (", " 24 3 ("],
+    trusted_base=["model lean/Rbgp/Export/Pipeline.lean (+ Model.lean) of table/src/lib.rs (IdAllocator, Destination, Table::insert / "
+                  "remove / drop, collect_loc_rib_paths_limited, impl Ord for RibEntry on the attribute families used), "
+                  "daemon/src/table_manager.rs (fan-out), daemon/src/event/mod.rs (on_established, handle_prefix_update, "
+                  "do_route_refresh), daemon/src/event/export.rs, daemon/src/peer_tx.rs",
+                  "harness/daemon/c01.rs: dispatch of ToPeerEvent and the drain+encode loop are transcribed from run_select / "
+                  "flush_tx; the tokio mpsc channel is drained into a FIFO after every RIB operation (changes of one bulk "
+                  "operation put in prefix order); the independent UPDATE reader (RFC 4271/4760/7911: IPv4 + IPv6 unicast, "
+                  "add-path) and its canonical attribute printing; a key announced twice with different contents in one flush "
+                  "is reported as `amb` on both sides (the survivor depends on hash-map iteration order)",
+                  "the prefix -> shard table of checks/c01.py (FNV hash of the derived Hash of Nlri), re-checked by the "
+                  "harness on every case"],
+    modelled_not_verified=["tokio mpsc FIFO and select_biased! ordering (model: explicit deliver(k) / flush operations)",
+                           "hash-map iteration order of PendingTx (grouping of NLRIs into UPDATEs, order of messages within the "
+                           "withdraw / reach parts) - the mirror is order-independent except for `amb` keys",
+                           "PeerCodec::encode_to framing and splitting (C04); only the decoded effect is compared",
+                           "the decision order impl Ord for RibEntry (C02), modelled as a lexicographic key",
+                           "RTC filter, BMP, kernel FIB, prefix limits, import policy, nexthop tracking: held constant"],
+    assumptions=["policy changes take effect in the session at once and their soft reset is queued, as in the daemon",
+                 "fewer than 2^24 destinations per shard (the IdAllocator's own debug assertion)"],
 )
 
 # prefix universe and the shard `TableManager::dealer` (FNV over the derived Hash of Nlri) puts each
